@@ -58,7 +58,8 @@ def gen_ovld(seed, index):
     # (not in worlds with type[...] positions: whether a position is keyed with type() or by the
     # passed class itself is a property of the whole method set, baked into the call sites of a
     # body that is already running)
-    can_mut = spec["meta"]["min_ar"] == 1 and "type" not in spec["meta"]["flavour"]
+    can_mut = spec["meta"]["min_ar"] == 1 and "type" not in spec["meta"]["flavour"] \
+        and not any(q[2] and q[2][0] == "t" for m in spec["methods"].values() for q in m["params"])
     kid_pool = [c["args"][0] for c in corpus if len(c.get("args", [])) == 1 and not c.get("kw")]
     if can_mut:
         gen.extra_class(spec, "KM")
